@@ -98,7 +98,9 @@ OkReportsLength == compliant => \A i \in 1..Len(out) : out[i][1] = "ok" =>
 \* a value that fails to encode or exceeds the maximum puts no byte into the sink
 NoBytesFromRejected == compliant => \A i \in 1..Len(sink) : Vals[sink[i][1]] \in 0..MaxLen
 \* the offset stays within the buffer
-OffsetBounded == tag = "from" => off <= Len(buf)
+\* (for a compliant caller: one that starts a write on an armed writer can leave the old offset beyond a shorter, scribbled buffer -
+\* harmless in the code, which treats "offset >= length" as done, and outside what the property speaks about)
+OffsetBounded == (compliant /\ tag = "from") => off <= Len(buf)
 
 (* ---- liveness ------------------------------------------------------------------------------------------------------------  *)
 (* A compliant caller that submits every value, syncs whenever an armed frame is waiting (and only then), and keeps polling;   *)
